@@ -97,6 +97,12 @@ func longLine(s *choice.Stream, n int) string {
 
 func genFile(s *choice.Stream, i int, allowMissing bool) fileSpec {
 	f := fileSpec{name: fmt.Sprintf("f%02d.txt", i)}
+	switch s.Draw(8, "file-name-style") {
+	case 0:
+		f.name = fmt.Sprintf("LICENSE%%20copy %d.txt", i) // a space and a per cent sign
+	case 1:
+		f.name = fmt.Sprintf("100%%_free-%d.md", i)
+	}
 	doc := func() v2kit.Doc { return docs[small[s.Draw(len(small), "doc")]] }
 	kind := s.Pick([]int{5, 3, 3, 2, 1, 2, 2, 3, 1}, "file-kind")
 	switch kind {
@@ -581,6 +587,11 @@ func runMain(c *hlib.Ctx) *hlib.Run {
 		"-timeout=24h", "-trace_phases=", "-trace_licenses=", "-ignore_paths_re="}
 	if useJSON {
 		args = append(args, "-json="+jsonPath)
+		if s.Draw(3, "json-target-exists") == 0 {
+			// the report file of an earlier, larger scan is still there
+			os.WriteFile(jsonPath, []byte("[\n"+strings.Repeat(` {"Filepath": "/old/scan/file.txt", "Classifications": [{"Name": "Old", "Confidence": 1, "StartLine": 1, "EndLine": 2}]},`+"\n", 400)+` {"Filepath": "/old/last", "Classifications": []}`+"\n]\n"), 0o644)
+			out.Counters["probe_json_target_preexisting"]++
+		}
 	} else {
 		args = append(args, "-json=")
 	}
